@@ -11,7 +11,7 @@ so every `decide` below is re-checked against the current sources.
 * `codes_*`      — T-codes
 * `channel*`     — T-channel (universally quantified over call histories)
 * `guarded_total`— T-guarded_total
-* `exports_*`    — T-exports (over the generated export table minus `knownUnguardedAborting`)
+* `exports_*`    — T-exports (over the whole generated export table)
 
 Not proved here (named runtime gap): memory safety of the ownership transfer ("released exactly
 once"); what each export's *body* does on given arguments (the `Outcome` parameter) is tied to the
@@ -192,18 +192,16 @@ example : ∀ c ∈ ([.getCode, .exported false (.ok ())] : List (Call ErrKind))
 
 /-! ## T-exports -/
 
-/-- T-exports.  Every `extern "C"` function under src/core/src/ffi is routed through `ffi_fn!`
-    (landing pad), **or** everything it calls directly is in the hand-justified panic-free
-    allow-list, **or** it is one of the exports explicitly listed as known to abort
-    (`knownUnguardedAborting`, findings/C20.json).  Removing an `ffi_fn!`, or adding an unguarded
-    export that calls anything outside the allow-list, makes this `decide` fail.
-    Full property (`knownUnguardedAborting = []`) holds once proposed/C20.diff is applied. -/
+/-- T-exports (full statement, no exemptions).  Every `extern "C"` function under
+    src/core/src/ffi is routed through `ffi_fn!` (landing pad), **or** everything it calls directly
+    is in the hand-justified panic-free allow-list.  Removing an `ffi_fn!`, or adding an unguarded
+    export that calls anything outside the allow-list, makes this `decide` fail. -/
 theorem exports_guarded_or_allowlisted :
-    exports.all (fun r => rowOk r.name r.guarded r.callees) = true := by decide +kernel
+    exports.all (fun r => r.guarded || r.callees.all (calleeAllowed r.name)) = true := by
+  decide +kernel
 
-/-- the exemption list cannot hide anything else: every name in it is a row of the export table -/
-theorem known_aborting_are_exports :
-    knownUnguardedAborting.all (fun n => exports.any (·.name == n)) = true := by decide +kernel
+/-- no export is exempted by name any more (the list of known-aborting exports is empty) -/
+theorem known_aborting_empty : knownUnguardedAborting = [] := rfl
 
 /-- the table covers the C API: the `extern "C"` functions of the export table are exactly the
     functions declared in include/sourmash.h (`headerFnsSorted` is the translator's sorted copy of
